@@ -170,7 +170,25 @@ def run(repo: Repo, chk: Check, thorough: bool = False) -> None:
     chk.ob('R13.1', "qnmatch.translate :: '[!seq]' negates the set", neg, "leading '!' becomes '^'" if neg else "'[!seq]' is no longer translated to a negated set", tr.loc)
     chk.ob('R13.1', "qnmatch.translate :: a literal leading '^' in a set is escaped", esc2, "'^' / '[' at the start of the set get a backslash" if esc2 else
            "'[^x]' written by the user would silently become a negated set", tr.loc)
-    chk.require('R13.1', 9)
+    # scanner index discipline: in `IDX < n and pat[K] ...` the character read is the one whose position was bounds-checked
+    prm0 = tr.params()[0].arg
+    n_guard = 0
+    for n in tr.walk():
+        if isinstance(n, ast.BoolOp) and isinstance(n.op, ast.And) and isinstance(n.values[0], ast.Compare) and \
+                isinstance(n.values[0].left, ast.Name) and len(n.values[0].ops) == 1 and isinstance(n.values[0].ops[0], ast.Lt):
+            idx = n.values[0].left.id
+            reads = [x for v in n.values[1:] for x in ast.walk(v)
+                     if isinstance(x, ast.Subscript) and isinstance(x.value, ast.Name) and x.value.id == prm0 and isinstance(x.slice, ast.Name)]
+            if not reads:
+                continue
+            n_guard += 1
+            bad = [x for x in reads if x.slice.id != idx]  # type: ignore[attr-defined]
+            chk.ob('R13.1', f'qnmatch.translate :: guarded read #{n_guard} looks at the position it bounds-checked', not bad,
+                   f'`{norm(n)}`' if not bad else
+                   f'`{norm(n)}`: the cursor that is bounds-checked and advanced is not the one the character is read from - the bracket / star scan decides on the wrong character', repo.loc(tr.mod, n))
+    if n_guard < 4:
+        raise AnalysisError(f'R13.1: {n_guard} guarded cursor reads found in translate (4 confirmed by hand)')
+    chk.require('R13.1', 13)
 
     # ------------------------------------------------------------------ R13.2
     pc = repo.func('pydoctor.model.System.privacyClass')
@@ -250,6 +268,8 @@ def run(repo: Repo, chk: Check, thorough: bool = False) -> None:
     cpv = repo.func('pydoctor.options._convert_privacy')
     lossy = [n for n in cpv.walk() if isinstance(n, (ast.Dict, ast.Set, ast.DictComp, ast.SetComp)) or
              (isinstance(n, ast.Call) and isinstance(n.func, ast.Name) and n.func.id in ('dict', 'set', 'frozenset', 'sorted', 'reversed')) or
+             (isinstance(n, ast.Call) and call_name(n) in ('fromkeys', 'unique', 'unique_everseen', 'Counter', 'OrderedDict', 'sort', 'reverse', 'groupby')) or
+             (isinstance(n, ast.Subscript) and isinstance(n.slice, ast.Slice) and n.slice.step is not None) or
              (isinstance(n, ast.Assign) and any(isinstance(t, ast.Subscript) for t in n.targets))]
     prm = [p.arg for p in cpv.params()]
     per_elem = any(isinstance(n, ast.Call) and call_name(n) == 'map' and len(n.args) == 2 and norm(n.args[1]) == prm[0] for n in cpv.walk()) or \
